@@ -133,11 +133,13 @@ pub struct GenCfg {
   pub xl: bool,
   /// Aborted builds are caught inside the session, which is then used for further builds.
   pub same_session: bool,
+  /// Some reads use checkers whose stamp type is zero-sized (`RK::ZVol`, `RK::ZMost`).
+  pub zst: bool,
 }
 
 impl Default for GenCfg {
   fn default() -> Self {
-    GenCfg { class: Class::W, bottom_up: 0, td_between: false, all_roots_td: false, crash: false, check_errors: false, rw_errors: false, exact_only_pct: 40, sim_fams_only: true, replays: 0, big: false, wrappers: false, files: false, proc_replay: false, in_session: false, xl: false, same_session: false }
+    GenCfg { class: Class::W, bottom_up: 0, td_between: false, all_roots_td: false, crash: false, check_errors: false, rw_errors: false, exact_only_pct: 40, sim_fams_only: true, replays: 0, big: false, wrappers: false, files: false, proc_replay: false, in_session: false, xl: false, same_session: false, zst: false }
   }
 }
 
@@ -173,6 +175,7 @@ fn adjust_kind(k: RK, fam: u8, generated: bool) -> RK {
   match (k, fam) {
     (RK::Version, 2 | 3) => RK::Exact,
     (RK::Version, 4) if generated => RK::Exact,
+    (RK::ZVol | RK::ZMost(_), 2..) => RK::Exact,
     _ => k,
   }
 }
@@ -345,6 +348,34 @@ pub fn gen_program_w_sized(rng: &mut Rng, cfg: &GenCfg, ntasks: usize, nres: usi
     tasks[me].ops = ops;
   }
   Program { class: Class::W, tasks, resources, writer, exact_only }
+}
+
+/// Replaces the checker of some (task, resource) read pairs by a zero-sized-stamp kind (all reads of that resource by
+/// that task alike: one checker per target per execution). Simulated families only; a read of a generated resource
+/// gets `ZVol` (observes the value) only when the writer's checker determines the value.
+pub fn add_zst_checkers(rng: &mut Rng, p: &mut Program) {
+  if p.exact_only { return; }
+  fn wchk_of(ops: &[Op], r: usize) -> Option<RK> {
+    for op in ops { match op { Op::Write { res, chk, .. } if *res == r => return Some(*chk), Op::If { then, els, .. } => { if let Some(k) = wchk_of(then, r).or_else(|| wchk_of(els, r)) { return Some(k); } } Op::Switch { cases, .. } => { for c in cases { if let Some(k) = wchk_of(c, r) { return Some(k); } } } _ => {} } }
+    None
+  }
+  fn replace(ops: &mut [Op], r: usize, k: RK) {
+    for op in ops.iter_mut() { match op { Op::Read { res, chk } if *res == r => { *chk = k; } Op::If { then, els, .. } => { replace(then, r, k); replace(els, r, k); } Op::Switch { cases, .. } => { for c in cases.iter_mut() { replace(c, r, k); } } _ => {} } }
+  }
+  for t in 0..p.tasks.len() {
+    let mut reads = vec![];
+    reads_of(&p.tasks[t].ops, &mut reads);
+    let mut seen = BTreeSet::new();
+    for (r, _) in reads {
+      if !seen.insert(r) || p.resources[r].fam >= 2 { continue; }
+      // The mode resource of class V / Switch reads keep their exact checker (Switch reads are not `Read` ops anyway).
+      if !rng.chance(30) { continue; }
+      let mut k = if rng.chance(50) { RK::ZVol } else { RK::ZMost(rng.range(0, 4) as Val) };
+      let writer_kind = p.writer.get(&r).and_then(|w| wchk_of(&p.tasks[*w].ops, r)).or_else(|| p.tasks.iter().find_map(|td| wchk_of(&td.ops, r)));
+      if let Some(wk) = writer_kind { if !wk.determines_obs(&k) { k = RK::ZMost(rng.range(0, 4) as Val); } }
+      replace(&mut p.tasks[t].ops, r, k);
+    }
+  }
 }
 
 pub fn gen_history(rng: &mut Rng, prog: &Program, cfg: &GenCfg) -> (Vec<(usize, Val)>, Vec<Step>, BTreeMap<usize, StepFault>) {
